@@ -93,6 +93,20 @@ check('C13', 'exploration',
       'deterministic simulation: three simulated process lifetimes per case (fork, exec with other hash seed and permuted listings, dirty-directory history), SimFS write-log oracle',
       'DESIGN.md 5.3')
 
+check('C09', 'exploration',
+      'From one multiset of events (numbered objects of 7 kinds with their labels, \\ref/\\pageref, dangling references) '
+      'a seeded scheduler produces P delivery orders (4 quick / 12 thorough): every reference is placed before, inside or '
+      'after its target, several pending on one label. Each order is delivered over two transports (bare Context API with '
+      'stub nodes; the schedule compiled to LaTeX and parsed by the real TeX). Per order: exact target identity, dangling '
+      'references resolve to no object, identifiers distinct, nothing left pending; over the recorded history of all orders: '
+      'confluence (one resolution map, one printed number per reference).',
+      'Trusted: generator bookkeeping of which marker carries which label. Normal form: unique labels, at most one per '
+      'object, objects keep their relative order across orders (only reference positions move); references around (not '
+      'inside) display math. The printed-number clause is self-consistency with the target, not LaTeX numbering (C08, N/A). '
+      'Only ORDER is simulated here: no file, clock or process fault exists for this property.',
+      'deterministic simulation: seeded delivery orders of label/reference events, confluence check over the recorded history, two transports',
+      'DESIGN.md 5.4')
+
 NA = [
  ('C01', 'pure function of (text, catcode table): no schedule, clock, fault or history in the statement; would need a second lexer as oracle (differential testing, another family)'),
  ('C02', 'pure function of the macro program; oracle would be an independent TeX expander (differential testing)'),
